@@ -333,15 +333,26 @@ class BV:
 class TermBV:
     """terms (gbsa.terms) -> BV over one BDD manager; symbol facts give known-zero / known-one bits"""
 
-    def __init__(self, m, sym_known=None):
+    def __init__(self, m, sym_known=None, atoms=False):
         self.m = m
         self.memo = {}
+        self.atoms = atoms
+        self.atom_names = {}
         self.sym_known = sym_known or (lambda t: (0, 0))
 
     def __call__(self, t):
         r = self.memo.get(t)
         if r is None:
-            r = self._conv(t)
+            try:
+                r = self._conv(t)
+            except Unsupported as e:
+                # a sub-term outside the fragment (division by a variable, general product, ...) becomes an uninterpreted
+                # atom: one fresh input per distinct term.  Equal terms get the same atom, so proofs of equality stay
+                # sound; anything *refuted* with the help of an atom is reported as undecided by the callers
+                if not self.atoms or t[0] != 'o' or not t[1] or e.why == 'BDD node budget exceeded':
+                    raise
+                n = self.atom_names.setdefault(t, 'atom:%d' % len(self.atom_names))
+                r = BV.sym(self.m, n, t[1])
             self.memo[t] = r
         return r
 
